@@ -64,7 +64,7 @@ theorem mem_reblockEffs (fin : Nat → Bool) (s : SemState) (e : Eff) :
   by_cases hf : s.fair = true
   · simp [hf]
   · have hf' : s.fair = false := by simpa using hf
-    simp only [hf, Bool.false_eq_true, if_false, List.mem_flatMap, hf', true_and]
+    simp only [hf, Bool.false_eq_true, if_false, List.mem_flatMap, true_and]
     constructor
     · rintro ⟨wid, hm, he⟩
       refine ⟨wid, hm, ?_⟩
